@@ -48,3 +48,17 @@ contract('bespokeasm.assembler.line_object.preprocessor_line.define_symbol:Defin
                   'self._symbol._name in preprocessor._symbols',
                   'mapping(preprocessor._symbols)[self._symbol._name] is self._symbol'],
          modifies=['preprocessor._symbols[*]'], allocates=True, no_frame_check=True)
+
+
+# ---- where the substitution happens: the whole text of a non-directive line, before anything of it is parsed ---------------
+contract('bespokeasm.assembler.line_object.factory:LineOjectFactory.parse_line', name='substitute-before-parsing',
+         props=['C09'], blocks_only=True,
+         params={'cls': 'opaque', 'label_scope': 'LabelScope', 'current_memzone': 'MemoryZone'},
+         locals={'instruction_str': 'str', 'comment_str': 'str', 'line_obj_list': 'list[LineObject]'},
+         blocks={'substitute': dict(
+             where='between:instruction_str = ::while len(instruction_str)', locals={}, requires=[],
+             may_raise={'SystemExit': 'True'},
+             # what is handed to the label / instruction / directive parsers contains no defined symbol as a whole word
+             ensures=['forall(lambda w: implies(w in ' + W.format('instruction_str') + ', not (w in preprocessor._symbols)),'
+                      ' types={"w": "str"})'],
+             modifies=[], allocates=True)})
